@@ -24,11 +24,11 @@ type Value struct {
 	Keys []string         // obj: key order as received (documents only)
 }
 
-func Null() Value           { return Value{K: "null"} }
-func Str(s string) Value    { return Value{K: "str", S: s} }
-func Int(i int64) Value     { return Value{K: "int", I: i} }
-func Bool(b bool) Value     { return Value{K: "bool", B: b} }
-func List(l []Value) Value  { return Value{K: "list", L: l} }
+func Null() Value          { return Value{K: "null"} }
+func Str(s string) Value   { return Value{K: "str", S: s} }
+func Int(i int64) Value    { return Value{K: "int", I: i} }
+func Bool(b bool) Value    { return Value{K: "bool", B: b} }
+func List(l []Value) Value { return Value{K: "list", L: l} }
 func Obj(o map[string]Value) Value {
 	if o == nil {
 		o = map[string]Value{}
@@ -217,11 +217,11 @@ func (m *FieldMap) UnmarshalJSON(b []byte) error {
 }
 
 type TypeDef struct {
-	Kind    string   `json:"kind"`
-	Fields  FieldMap `json:"fields"`
-	Ifaces  []string `json:"ifaces"`
-	Members []string `json:"members"`
-	Values  []string `json:"values,omitempty"` // enum
+	Kind     string   `json:"kind"`
+	Fields   FieldMap `json:"fields"`
+	Ifaces   []string `json:"ifaces"`
+	Members  []string `json:"members"`
+	Values   []string `json:"values,omitempty"`   // enum
 	InFields []ArgDef `json:"infields,omitempty"` // input object
 }
 
